@@ -5,11 +5,19 @@ package docpool
 
 import (
 	"fmt"
+	"os"
+	"path/filepath"
 	"strconv"
 	"strings"
 
 	"github.com/tsawler/tabula"
 	"github.com/tsawler/tabula/contentstream"
+	"github.com/tsawler/tabula/docx"
+	"github.com/tsawler/tabula/htmldoc"
+	"github.com/tsawler/tabula/odt"
+	"github.com/tsawler/tabula/pptx"
+	"github.com/tsawler/tabula/rag"
+	"github.com/tsawler/tabula/xlsx"
 	"github.com/tsawler/tabula/reader"
 	"github.com/tsawler/tabula/text"
 	"github.com/tsawler/tabula/zzharness/faults"
@@ -80,10 +88,11 @@ func (p *Pool) Doc(i int) Doc {
 	panic("docpool: unknown kind " + kind)
 }
 
-var fileOps = []string{"file.text", "file.markdown", "file.document", "file.jsonl", "file.csv", "file.json", "file.pagecount"}
+var fileOps = []string{"file.text", "file.markdown", "file.document", "file.jsonl", "file.csv", "file.json", "file.pagecount",
+	"file.markdown.toc", "fmt.reader.sequence", "ext.afterfail"}
 var pdfOps = []string{"file.text", "file.markdown", "file.document", "file.jsonl", "file.csv", "file.fragments", "file.analyze",
 	"file.text.bycolumn", "file.text.nohf", "file.lines", "file.paragraphs", "file.pagecount",
-	"reader.repeat.fragments", "reader.repeat.markdown", "ext.repeat.text", "ext.repeat.markdown", "ext.repeat.jsonl", "coll.sequence"}
+	"reader.repeat.fragments", "reader.repeat.markdown", "ext.repeat.text", "ext.repeat.markdown", "ext.repeat.jsonl", "coll.sequence", "file.markdown.toc", "ext.afterfail"}
 
 func (p *Pool) OpsFor(i int) []string {
 	switch p.Kind(i) {
@@ -94,7 +103,7 @@ func (p *Pool) OpsFor(i int) []string {
 	case "cs":
 		return []string{"cs.parse", "cs.extract"}
 	case "html":
-		return []string{"html.text", "html.markdown", "file.text", "file.markdown", "file.document", "file.jsonl"}
+		return []string{"html.text", "html.markdown", "file.text", "file.markdown", "file.document", "file.jsonl", "file.markdown.toc", "fmt.reader.sequence", "ext.afterfail"}
 	}
 	return fileOps
 }
@@ -288,6 +297,107 @@ func runOp(op, path string, data []byte) string {
 			return RepeatMismatch + " first: " + a + " later: " + b
 		}
 		return first
+	case "file.markdown.toc":
+		o := rag.RAGOptimizedMarkdownOptions()
+		o.IncludeTableOfContents = true
+		s, w, err := tabula.Open(path).ToMarkdownWithOptions(o)
+		return res(s, w, err)
+	case "ext.afterfail":
+		// an extractor whose first operation fails because the file is empty at that moment,
+		// asked again once the file is whole: it answers as a new extractor does
+		whole, rerr := os.ReadFile(path)
+		if rerr != nil {
+			return res("", nil, rerr)
+		}
+		p2 := filepath.Join(filepath.Dir(path), "afterfail-"+filepath.Base(path))
+		defer os.Remove(p2)
+		if werr := os.WriteFile(p2, nil, 0o644); werr != nil {
+			return res("", nil, werr)
+		}
+		e := tabula.Open(p2)
+		_, err0 := e.PageCount()
+		if werr := os.WriteFile(p2, whole, 0o644); werr != nil {
+			return res("", nil, werr)
+		}
+		s1, _, err1 := e.Text()
+		s2, _, err2 := tabula.Open(p2).Text()
+		first, second := res(s1, nil, err1), res(s2, nil, err2)
+		first = strings.ReplaceAll(first, p2, "<copy>")
+		second = strings.ReplaceAll(second, p2, "<copy>")
+		if err0 == nil {
+			// an empty file is a document of this format: the extractor legitimately keeps
+			// what it read then; the scenario needs a first call that fails
+			return second
+		}
+		if first != second {
+			a, b := sim.DiffContext(second, first)
+			return RepeatMismatch + " first: " + a + " later: " + b + fmt.Sprintf(" (first call failed: %v)", err0 != nil)
+		}
+		return first
+	case "fmt.reader.sequence":
+		// the format's own reader, opened once and asked several things, some of them twice
+		type rdr interface {
+			Text() (string, error)
+			Markdown() (string, error)
+		}
+		tocOpts := rag.RAGOptimizedMarkdownOptions()
+		tocOpts.IncludeTableOfContents = true
+		var r rdr
+		var ragMD func() (string, error)
+		var closeFn func()
+		switch strings.ToLower(filepath.Ext(path)) {
+		case ".docx":
+			x, err := docx.Open(path)
+			if err != nil {
+				return res("", nil, err)
+			}
+			r, closeFn = x, func() { x.Close() }
+			ragMD = func() (string, error) { return x.MarkdownWithRAGOptions(docx.ExtractOptions{}, tocOpts) }
+		case ".odt":
+			x, err := odt.Open(path)
+			if err != nil {
+				return res("", nil, err)
+			}
+			r, closeFn = x, func() { x.Close() }
+			ragMD = func() (string, error) { return x.MarkdownWithRAGOptions(odt.ExtractOptions{}, tocOpts) }
+		case ".xlsx":
+			x, err := xlsx.Open(path)
+			if err != nil {
+				return res("", nil, err)
+			}
+			r, closeFn = x, func() { x.Close() }
+			ragMD = func() (string, error) { return x.MarkdownWithRAGOptions(xlsx.ExtractOptions{}, tocOpts) }
+		case ".pptx":
+			x, err := pptx.Open(path)
+			if err != nil {
+				return res("", nil, err)
+			}
+			r, closeFn = x, func() { x.Close() }
+			ragMD = func() (string, error) { return x.MarkdownWithRAGOptions(pptx.ExtractOptions{}, tocOpts) }
+		case ".html", ".htm":
+			x, err := htmldoc.Open(path)
+			if err != nil {
+				return res("", nil, err)
+			}
+			r, closeFn = x, func() { x.Close() }
+			ragMD = func() (string, error) { return x.MarkdownWithRAGOptions(htmldoc.ExtractOptions{}, tocOpts) }
+		default:
+			s, w, err := tabula.Open(path).Text()
+			return res(s, w, err)
+		}
+		defer closeFn()
+		m1, e1 := r.Markdown()
+		g1, e2 := ragMD()
+		t1, e3 := r.Text()
+		g2, e4 := ragMD()
+		m2, e5 := r.Markdown()
+		t2, e6 := r.Text()
+		a, b := res(m1, nil, e1)+"\n--\n"+res(g1, nil, e2)+"\n--\n"+res(t1, nil, e3), res(m2, nil, e5)+"\n--\n"+res(g2, nil, e4)+"\n--\n"+res(t2, nil, e6)
+		if a != b {
+			x, y := sim.DiffContext(a, b)
+			return RepeatMismatch + " first: " + x + " later: " + y
+		}
+		return a
 	case "coll.sequence":
 		// one chunk collection rendered, exported in other formats, and rendered again: an
 		// export reads the collection, the second rendering equals the first
